@@ -45,6 +45,9 @@ type Client struct {
 	otel   bool
 	tracer trace.Tracer
 	meter  metric.Meter
+	// metricsMux guards per-query metrics, which are updated by both
+	// sending and receiving goroutines of Do.
+	metricsMux sync.Mutex
 
 	// TCP Binary protocol version.
 	protocolVersion int
